@@ -202,7 +202,7 @@ class SimTextReader:
             self._text = t
         return self._text
 
-    def readline(self, *a):
+    def readline(self, size=-1):
         if self.closed:
             raise ValueError("I/O operation on closed file.")
         t = self._load()
@@ -210,6 +210,8 @@ class SimTextReader:
             return ""
         j = t.find("\n", self.pos)
         end = len(t) if j < 0 else j + 1
+        if size is not None and size >= 0:
+            end = min(end, self.pos + size)      # at most `size` characters, as io.TextIOBase.readline
         line = t[self.pos:end]
         self.pos = end
         return line
